@@ -63,6 +63,8 @@ func run(repo, prop, tier string, seed int, out, known, cg, arg string) (code in
 		return debugTaint(p, arg)
 	case "range":
 		return debugRange(p, arg)
+	case "acc":
+		return debugAccesses(p, arg)
 	case "dump":
 		return debugDump(p, arg)
 	}
